@@ -1,3 +1,143 @@
 package main
 
-func runSelftest(c *Ctx, verifDir string) {}
+// E13: self-test of the checker (thorough tier). Every breaking mutant of the property
+// (and every independently seeded change) must make the check fire, every neutral variant
+// must leave it silent. Each variant is a scratch copy of /repo's working tree with one
+// patch applied, analysed by a FRESH process of this binary; the copy is deleted at once.
+// Nothing is executed from the copies: they are only parsed and type-checked.
+
+import (
+	"fmt"
+	"os"
+	"os/exec"
+	"path/filepath"
+	"regexp"
+	"sort"
+	"strings"
+	"sync"
+)
+
+type variantResult struct {
+	Name  string   `json:"name"`
+	Kind  string   `json:"kind"` // mutant | seeded | neutral
+	Exit  int      `json:"exit"`
+	Rules []string `json:"rules,omitempty"`
+	Note  string   `json:"note,omitempty"`
+}
+
+var violatedRe = regexp.MustCompile(`violated: ([A-Za-z0-9.]+[A-Za-z0-9-]*)/`)
+
+func runSelftest(c *Ctx, verifDir string) {
+	prop := c.R.Prop
+	var variants [][2]string // path, kind
+	add := func(glob, kind string) {
+		ms, _ := filepath.Glob(glob)
+		sort.Strings(ms)
+		for _, m := range ms {
+			variants = append(variants, [2]string{m, kind})
+		}
+	}
+	add(filepath.Join(verifDir, "mutants", prop, "*.patch"), "mutant")
+	add(filepath.Join(verifDir, "seeded", prop+"-*", "patch.diff"), "seeded")
+	add(filepath.Join(verifDir, "neutral", prop, "*.patch"), "neutral")
+	if len(variants) == 0 {
+		return
+	}
+	self, err := os.Executable()
+	if err != nil {
+		c.R.Notes = append(c.R.Notes, "selftest skipped: "+err.Error())
+		return
+	}
+	results := make([]variantResult, len(variants))
+	sem := make(chan bool, 8)
+	var wg sync.WaitGroup
+	for i, v := range variants {
+		wg.Add(1)
+		go func(i int, path, kind string) {
+			defer wg.Done()
+			sem <- true
+			defer func() { <-sem }()
+			name := strings.TrimSuffix(filepath.Base(path), ".patch")
+			if kind == "seeded" {
+				name = filepath.Base(filepath.Dir(path))
+			}
+			res := variantResult{Name: name, Kind: kind}
+			if kind == "seeded" {
+				if meta, err := os.ReadFile(filepath.Join(filepath.Dir(path), "meta.json")); err == nil && strings.Contains(string(meta), "\"status_after_fixes\"") {
+					res.Kind = "seeded-neutralised" // a later repository fix made this change harmless; the check must stay silent
+				}
+			}
+			scr, err := os.MkdirTemp("", "verifself.")
+			if err != nil {
+				res.Note = err.Error()
+				results[i] = res
+				return
+			}
+			defer os.RemoveAll(scr)
+			sh := fmt.Sprintf(`set -e; mkdir -p %[1]s/repo; cd %[2]s; git ls-files -z --cached --others --exclude-standard | tar --null -T - -cf - 2>/dev/null | tar -xf - -C %[1]s/repo; cd %[1]s/repo; patch -p1 -s --no-backup-if-mismatch < %[3]s >/dev/null 2>&1`, scr, c.Repo, path)
+			if out, err := exec.Command("bash", "-c", sh).CombinedOutput(); err != nil {
+				res.Exit = -1
+				res.Note = "selftest-skipped: patch does not apply to the current tree " + strings.TrimSpace(string(out))
+				results[i] = res
+				return
+			}
+			cmd := exec.Command(self, "-repo", filepath.Join(scr, "repo"), "-verif", verifDir, "-prop", prop, "-tier", "quick", "-evidence", filepath.Join(scr, "ev.json"))
+			out, _ := cmd.CombinedOutput()
+			res.Exit = cmd.ProcessState.ExitCode()
+			seen := map[string]bool{}
+			for _, mm := range violatedRe.FindAllStringSubmatch(string(out), -1) {
+				if !seen[mm[1]] {
+					seen[mm[1]] = true
+					res.Rules = append(res.Rules, mm[1])
+				}
+			}
+			sort.Strings(res.Rules)
+			results[i] = res
+		}(i, v[0], v[1])
+	}
+	wg.Wait()
+	st := map[string]any{}
+	var missed, falseAlarms, skipped []string
+	nM, nMD, nS, nSD, nN, nNS := 0, 0, 0, 0, 0, 0
+	for _, r := range results {
+		switch {
+		case r.Exit == -1:
+			skipped = append(skipped, r.Name)
+		case r.Kind == "mutant":
+			nM++
+			if r.Exit == 1 {
+				nMD++
+			} else {
+				missed = append(missed, r.Name)
+			}
+		case r.Kind == "seeded":
+			nS++
+			if r.Exit == 1 {
+				nSD++
+			} else {
+				missed = append(missed, r.Name)
+			}
+		case r.Kind == "neutral" || r.Kind == "seeded-neutralised":
+			nN++
+			if r.Exit == 0 {
+				nNS++
+			} else {
+				falseAlarms = append(falseAlarms, r.Name)
+			}
+		}
+	}
+	st["mutants_applied"], st["mutants_detected"] = nM, nMD
+	st["seeded_applied"], st["seeded_detected"] = nS, nSD
+	st["neutral_applied"], st["neutral_silent"] = nN, nNS
+	st["not_detected"], st["false_alarms"], st["skipped"] = missed, falseAlarms, skipped
+	st["results"] = results
+	c.R.Selftest = st
+	fmt.Printf("selftest %s: mutants %d/%d detected, seeded %d/%d detected, neutral %d/%d silent", prop, nMD, nM, nSD, nS, nNS, nN)
+	if len(missed) > 0 {
+		fmt.Printf("; NOT DETECTED: %s", strings.Join(missed, ", "))
+	}
+	if len(falseAlarms) > 0 {
+		fmt.Printf("; FALSE ALARMS on neutral variants: %s", strings.Join(falseAlarms, ", "))
+	}
+	fmt.Println()
+}
